@@ -537,7 +537,14 @@ class Check(PropertyCheck):
                   "WebSocketData, TCP/UDP messages and DNS messages; metadata, connections and Error are instances of the generic "
                   "theorems without a class-specific simulation lemma). The object layers are tied to the code through the typed "
                   "value model they simulate, not by a driver op of their own. Flow.set_state's in-place/re-assign split is a "
-                  "parameter `ip` over which every theorem quantifies. Flow.modified() is modelled after the repair of F-C40a. A copy inherits the "
+                  "parameter `ip` over which every theorem quantifies. (R1, audit round 6) Edits are guarded no-ops on absent objects, in the "
+                  "harness and in the model alike: an edit of a missing response/websocket/error, a pop on an empty list, an "
+                  "out-of-range index or a missing flow/component changes nothing (the harness's edit functions test before they "
+                  "touch; the model's Edit.apply falls through, dropLast/set/modify ignore out-of-range) - real Python would "
+                  "raise there, but such calls are never issued. (R2) 'Derived, no longer assumed' for from_state/copy freshness "
+                  "means: derived from the transcription inside the object layers; WHICH sub-objects the real from_state/copy "
+                  "share is observed only indirectly, through the value-level tie (states of all flows compared after every "
+                  "operation - the c40-5 class shows up there), because the object layers are not run by the driver. Flow.modified() is modelled after the repair of F-C40a. A copy inherits the "
                   "source's backup including the source's id, so reverting a copy gives it the source's id: modelled as "
                   "implemented (not part of the C40 statement).")
     technique = "Lean 4 proof (heap model, induction over operation histories) + differential model-vs-code correspondence"
